@@ -1604,7 +1604,22 @@ fn all_seeds() -> (Vec<Seed>, Vec<String>) {
 // =====================================================================================
 
 pub const PRESETS: [&str; 6] = ["strict", "default", "reader_new", "tolerant", "lenient", "skip_errors"];
-const NP: u64 = PRESETS.len() as u64;
+/// quick tier: the two strict-most presets and the most forgiving one; thorough: all six
+const QUICK_PRESETS: [usize; 3] = [0, 1, 5];
+static NP_DYN: AtomicU64 = AtomicU64::new(PRESETS.len() as u64);
+/// number of presets per input in the current tier (set by `Space::new`)
+fn np() -> u64 {
+    NP_DYN.load(Ordering::Relaxed)
+}
+/// index into PRESETS of the preset of case `idx`
+fn preset_of(idx: u64) -> usize {
+    let k = (idx % np()) as usize;
+    if np() as usize == PRESETS.len() {
+        k
+    } else {
+        QUICK_PRESETS[k]
+    }
+}
 
 fn preset_options(p: usize) -> ParseOptions {
     match p {
@@ -1635,7 +1650,7 @@ enum Fam {
     Nesting,
     NumPairs,
 }
-const FAMS: [Fam; 10] = [Fam::NumSingle, Fam::Payload, Fam::ByteMut, Fam::Trunc, Fam::Escapes, Fam::NameHex, Fam::A85, Fam::Tokens, Fam::Nesting, Fam::NumPairs];
+const FAMS: [Fam; 10] = [Fam::Escapes, Fam::NameHex, Fam::Payload, Fam::Nesting, Fam::A85, Fam::Tokens, Fam::Trunc, Fam::NumSingle, Fam::ByteMut, Fam::NumPairs];
 
 impl Fam {
     fn name(self) -> &'static str {
@@ -1675,6 +1690,12 @@ enum ByteOp {
 const BODY_TOKENS: [&str; 20] = ["<<", ">>", "[", "]", "(", ")", "<", ">", "/", "/A", "0", "-1", "1.5", "R", "obj", "endobj", "stream\n", "endstream", "null", "%"];
 const CONTENT_TOKENS: [&str; 20] = ["[", "]", "(", ")", "<", ">", "<<", ">>", "/F1", "0", "-1", "1.5", "BT", "ET", "Tj", "TJ", "Tf", "BI", "ID", "EI"];
 const A85_ALPHA: [u8; 5] = [b'!', b's', b't', b'u', b'z'];
+/// quick tier: lowest digit, the two digits around the 2^32 boundary for a leading position, and the `z` shortcut
+const A85_ALPHA_QUICK: [u8; 4] = [b'!', b's', b'u', b'z'];
+/// quick tier: the structurally richest seeds for the per-byte families (classic table, xref
+/// stream + object stream + predictor, incremental update, Type0/ToUnicode with an unfiltered
+/// CMap stream, hybrid file)
+const QUICK_BYTE_SEEDS: [&str; 5] = ["classic", "xrefstm-objstm-pred12", "two-revisions-prev", "type0-tounicode", "hybrid-xrefstm"];
 const A85_TERMS: [&str; 6] = ["~>", "~", "", ">", "~~>", " ~>"];
 const HEXC: &[u8] = b"0123456789abcdefABCDEFgG# /)>\x00";
 const NEST_DEPTHS: [usize; 15] = [1, 2, 8, 64, 100, 101, 255, 256, 999, 1000, 1001, 1024, 5000, 20000, 100000];
@@ -1706,10 +1727,13 @@ struct Space {
     // payload: flattened items
     pl_items: Vec<PayloadItem>,
     pl_prefix: Vec<u64>,
+    /// seeds (indices) used by the byte-mutation and truncation families
+    bm_seeds: Vec<usize>,
     bm_prefix: Vec<u64>,
     tr_prefix: Vec<u64>,
     escapes: Vec<Vec<u8>>,
     namehex: Vec<Vec<u8>>,
+    a85_alpha: Vec<u8>,
     a85_groups: u64,
     a85_prefixes: Vec<&'static str>,
     tok_maxlen: usize,
@@ -1748,6 +1772,7 @@ fn locate(prefix: &[u64], idx: u64) -> (usize, u64) {
 impl Space {
     fn new(thorough: bool) -> Space {
         THOROUGH.store(thorough, Ordering::SeqCst);
+        NP_DYN.store(if thorough { PRESETS.len() as u64 } else { QUICK_PRESETS.len() as u64 }, Ordering::SeqCst);
         let (seeds, notes) = all_seeds();
         let mut byte_ops = vec![ByteOp::Delete, ByteOp::Dup];
         if thorough {
@@ -1788,8 +1813,9 @@ impl Space {
             PayloadItem::XrefField { values, .. } => values.len() as u64,
             PayloadItem::ObjStmTok { .. } => CAT.len() as u64,
         }));
-        let bm_prefix = prefix(seeds.iter().map(|s| s.bytes.len() as u64 * byte_ops.len() as u64));
-        let tr_prefix = prefix(seeds.iter().map(|s| s.bytes.len() as u64));
+        let bm_seeds: Vec<usize> = (0..seeds.len()).filter(|i| thorough || QUICK_BYTE_SEEDS.contains(&seeds[*i].name.as_str())).collect();
+        let bm_prefix = prefix(bm_seeds.iter().map(|i| seeds[*i].bytes.len() as u64 * byte_ops.len() as u64));
+        let tr_prefix = prefix(bm_seeds.iter().map(|i| seeds[*i].bytes.len() as u64));
         // string escapes: \ddd (512), \dd (64), \d (8), \ + every byte (256)
         let mut escapes: Vec<Vec<u8>> = Vec::new();
         for v in 0..512u32 {
@@ -1814,7 +1840,8 @@ impl Space {
             namehex.push(vec![b'#', a]);
         }
         namehex.push(vec![b'#']);
-        let a85_groups: u64 = (0..=5u32).map(|l| 5u64.pow(l)).sum();
+        let a85_alpha: Vec<u8> = if thorough { A85_ALPHA.to_vec() } else { A85_ALPHA_QUICK.to_vec() };
+        let a85_groups: u64 = (0..=5u32).map(|l| (a85_alpha.len() as u64).pow(l)).sum();
         let a85_prefixes = if thorough { vec!["", "87cUR"] } else { vec![""] };
         let tok_maxlen = if thorough { 4 } else { 3 };
         let mut nest = Vec::new();
@@ -1870,10 +1897,12 @@ impl Space {
             ns_prefix,
             pl_items,
             pl_prefix,
+            bm_seeds,
             bm_prefix,
             tr_prefix,
             escapes,
             namehex,
+            a85_alpha,
             a85_groups,
             a85_prefixes,
             tok_maxlen,
@@ -1903,7 +1932,7 @@ impl Space {
         }
     }
     fn cases(&self, f: Fam) -> u64 {
-        self.inputs(f) * NP
+        self.inputs(f) * np()
     }
 
     fn decode_seq(&self, mut idx: u64, base: u64, maxlen: usize) -> Vec<usize> {
@@ -2014,7 +2043,7 @@ impl Space {
             }
             Fam::ByteMut => {
                 let (si, rem) = locate(&self.bm_prefix, input);
-                let seed = &self.seeds[si];
+                let seed = &self.seeds[self.bm_seeds[si]];
                 let nops = self.byte_ops.len() as u64;
                 let pos = (rem / nops) as usize;
                 let op = self.byte_ops[(rem % nops) as usize];
@@ -2041,7 +2070,7 @@ impl Space {
             }
             Fam::Trunc => {
                 let (si, rem) = locate(&self.tr_prefix, input);
-                let seed = &self.seeds[si];
+                let seed = &self.seeds[self.bm_seeds[si]];
                 let bytes = seed.bytes[..rem as usize].to_vec();
                 (bytes, if want_desc { json!({"seed": seed.name, "truncated_to": rem, "of": seed.bytes.len()}) } else { Value::Null })
             }
@@ -2075,9 +2104,9 @@ impl Space {
                 let pfx = self.a85_prefixes[(input / (g * nt)) as usize];
                 let rem = input % (g * nt);
                 let term = A85_TERMS[(rem % nt) as usize];
-                let seq = self.decode_seq(rem / nt, 5, 5);
+                let seq = self.decode_seq(rem / nt, self.a85_alpha.len() as u64, 5);
                 let mut data = pfx.as_bytes().to_vec();
-                data.extend(seq.iter().map(|i| A85_ALPHA[*i]));
+                data.extend(seq.iter().map(|i| self.a85_alpha[*i]));
                 data.extend_from_slice(term.as_bytes());
                 let bytes = micro_doc(Micro::ContentFiltered("ASCII85Decode", &data));
                 (bytes, if want_desc { json!({"ascii85_data": String::from_utf8_lossy(&data), "placement": "content stream with /Filter /ASCII85Decode"}) } else { Value::Null })
@@ -2131,8 +2160,8 @@ impl Space {
     }
 
     fn describe(&self, f: Fam, idx: u64) -> Value {
-        let (_, mut d) = self.build(f, idx / NP, true);
-        d["preset"] = json!(PRESETS[(idx % NP) as usize]);
+        let (_, mut d) = self.build(f, idx / np(), true);
+        d["preset"] = json!(PRESETS[preset_of(idx)]);
         d["family"] = json!(f.name());
         d["case_index"] = json!(idx);
         d
@@ -2486,8 +2515,8 @@ impl Space {
                 };
                 self.seeds[si].max_obj + 3
             }
-            Fam::ByteMut => self.seeds[seed_of(&self.bm_prefix)].max_obj + 3,
-            Fam::Trunc => self.seeds[seed_of(&self.tr_prefix)].max_obj + 3,
+            Fam::ByteMut => self.seeds[self.bm_seeds[seed_of(&self.bm_prefix)]].max_obj + 3,
+            Fam::Trunc => self.seeds[self.bm_seeds[seed_of(&self.tr_prefix)]].max_obj + 3,
             Fam::NumPairs => {
                 let pv = (self.pair_vals * self.pair_vals) as u64;
                 self.seeds[self.pairs[(input / pv) as usize].0].max_obj + 3
@@ -2524,8 +2553,8 @@ fn lenient_is_tolerant() -> bool {
 }
 
 fn run_case_here(space: &Space, f: Fam, idx: u64) -> String {
-    let input = idx / NP;
-    let preset = (idx % NP) as usize;
+    let input = idx / np();
+    let preset = preset_of(idx);
     if preset == 4 && lenient_is_tolerant() {
         // ParseOptions::lenient() is field-for-field ParseOptions::tolerant() (checked just
         // now): the tolerant case next to this one is the same execution
@@ -3102,7 +3131,7 @@ impl FamAcc {
         }
         if r.nontriv {
             self.nontriv_cases += 1;
-            self.nontriv.insert(vx::hmix(r.ih, r.idx % NP));
+            self.nontriv.insert(vx::hmix(r.ih, r.idx % np()));
         }
         if r.peak_kib > self.max_peak_kib {
             self.max_peak_kib = r.peak_kib;
@@ -3348,7 +3377,7 @@ pub fn run(rep: &mut vx::Report) {
             return;
         }
         println!("replay section={} tier={} case={}", fam.name(), if thorough { "thorough" } else { "quick" }, serde_json::to_string(&space.describe(fam, idx)).unwrap_or_default());
-        let (bytes, _) = space.build(fam, idx / NP, false);
+        let (bytes, _) = space.build(fam, idx / np(), false);
         println!("input ({} bytes): {}", bytes.len(), vx::show_bytes(&bytes, 6000));
         let mut acc = FamAcc::default();
         let s = run_single(thorough, &scratch, "replay", fam, idx);
@@ -3368,7 +3397,8 @@ pub fn run(rep: &mut vx::Report) {
     let space = Space::new(thorough);
     write_seed_cache(&scratch.join("seeds.bin"), &space.seeds);
     rep.rule(
-        "a case = (input, preset): input = one member of a mutation family applied to one seed file (or one micro-grammar / nesting document), preset in {strict, default, reader_new(=PdfReader::new), tolerant, lenient, skip_errors}; \
+        "a case = (input, preset): input = one member of a mutation family applied to one seed file (or one micro-grammar / nesting document), preset in {strict, default, reader_new(=PdfReader::new), tolerant, lenient, skip_errors} (thorough) or {strict, default, skip_errors} (quick); \
+         quick bounds: 14-value catalogue, per-byte families on the 5 structurally richest seeds with {delete, duplicate, ' ', '(', 0xFF}, ASCII85 groups over {!,s,u,z}, token sequences <= 3, no pairs; thorough: 28-value catalogue, all 11 seeds x 20 byte operations, ASCII85 over {!,s,t,u,z} in two placements, token sequences <= 4, all pairs of slots of one object / xref section; \
          cases are numbered family by family and every index is executed in an isolated worker process. distinct_inputs = distinct input byte strings; distinct_outcomes = distinct outcome signatures \
          (open result class, page count, per-phase ok/err counts, or panic key / crash / hang); non-trivial = the file opened and at least one indirect object was loaded as a non-null value.",
     );
@@ -3561,6 +3591,20 @@ pub fn run(rep: &mut vx::Report) {
     rep.note("lenient_preset_identical_to_tolerant", json!(lenient_is_tolerant()));
     rep.note("sweep_wall_s", json!(sweep_wall));
     rep.note("cases_per_second", json!(sw.done.load(Ordering::Relaxed) as f64 / sweep_wall.max(1e-9)));
-    rep.note("catalogue", json!(CAT));
+    rep.note("catalogue", json!(if thorough { CAT.to_vec() } else { QUICK_CAT.to_vec() }));
+    rep.note(
+        "tier_bounds",
+        json!({
+            "tier": if thorough { "thorough" } else { "quick" },
+            "presets": (0..np()).map(|k| PRESETS[preset_of(k)]).collect::<Vec<_>>(),
+            "byte_and_truncation_seeds": space.bm_seeds.iter().map(|i| space.seeds[*i].name.clone()).collect::<Vec<_>>(),
+            "byte_operations": space.byte_ops.iter().map(|o| format!("{o:?}")).collect::<Vec<_>>(),
+            "ascii85_alphabet": String::from_utf8_lossy(&space.a85_alpha),
+            "ascii85_prefixes": space.a85_prefixes,
+            "token_sequence_max_length": space.tok_maxlen,
+            "pairs": thorough,
+            "family_order": FAMS.iter().map(|f| f.name()).collect::<Vec<_>>(),
+        }),
+    );
     rep.note("pair_catalogue", json!(PAIR_CAT));
 }
